@@ -46,10 +46,13 @@ type ColumnDef struct {
 	AutoIncrement bool
 	Null          bool
 	Unique        bool
-	Default       interface{}
-	Collate       string
-	References    *ForeignKeyClause
-	Checks        []Expression
+	// UNIQUE came before PRIMARY KEY in the constraint list. SQLite makes the
+	// automatic indexes in that order, which matters when both are present.
+	UniqueFirst bool
+	Default     interface{}
+	Collate     string
+	References  *ForeignKeyClause
+	Checks      []Expression
 }
 
 // column constraints, used while parsing a constraint list
@@ -79,6 +82,9 @@ func makeColumnDef(name string, typ string, cs []columnConstraint) ColumnDef {
 		case ccNull:
 			cd.Null = bool(v)
 		case ccPrimaryKey:
+			if cd.Unique && !cd.PrimaryKey {
+				cd.UniqueFirst = true
+			}
 			cd.PrimaryKey = true
 			cd.PrimaryKeyDir = SortOrder(v.sort)
 			cd.AutoIncrement = v.autoincrement
